@@ -528,6 +528,10 @@ WITNESSES = [
     ("fmtf x252e393966 f54b249ad2594c37d", False),
 ]
 PATTERN_OPS = ("find", "match", "gmatch", "gsub", "gsub3")
+# the stops of the pattern functions that the port documents (the model voice names its reason): recursion budget
+# MAX_MATCH_CALLS = 32, position captures "not supported yet", the 8-capture limit of gmatch.  A stop for any other reason
+# (e.g. the matcher reporting a malformed pattern) where Lua returns a value is a FAIL
+DOCUMENTED_PATTERN_STOPS = ("!trap:complex", "!trap:poscapture", "!trap:caplimit")
 
 
 # --------------------------------------------------------------------------------------------
@@ -626,7 +630,7 @@ def run_three(ctx, lines, drv, interp, model, asan_drv=None):
 def model_agrees(m, nel):
     if m == "?":
         return True
-    if m == "!trap":
+    if m == "!trap" or m.startswith("!trap:"):
         return nel == "!sig6"
     if m == "!unsafe":
         return nel.startswith("!sig") or nel.startswith("!exit") or nel == "!nonterminating" or True   # UB: anything may happen
@@ -675,6 +679,7 @@ def correspond(ctx):
     failing = []
     voiced = {}
     spec_stats = {"checked": 0, "mismatch": 0}
+    spec_fail = []
     undefined_by = {}
 
     def handle(line, lua, nel, mod, tag=""):
@@ -690,18 +695,21 @@ def correspond(ctx):
             spec_stats["checked"] += 1
             if not ((spec == "!error" and lua.startswith("!error")) or spec == lua):
                 spec_stats["mismatch"] += 1
+                spec_fail.append("%s | spec=%s | lua=%s" % (line[:100], spec[:60], lua[:90]))
                 if spec_stats["mismatch"] <= 3:
                     ctx.violation("spec-mismatch:%s" % a[0], "correspondence",
                                   "the Coq transcription of Lua's %s does not agree with the reference interpreter on '%s': transcription %s, interpreter %s" % (a[0], line, spec[:80], lua[:80]),
                                   detail={"case": line, "spec": spec, "reference_lua": lua, "no_longer_checks": "spec stream C13/%s" % a[0]}, failing_input=False)
         st, why = verdict(a, lua, nel)
-        if st == "undefined" and not (mod == "!trap" or (mod == "?" and a[0] in PATTERN_OPS)):
+        documented_stop = (mod == "!trap" and a[0] not in PATTERN_OPS) or mod in DOCUMENTED_PATTERN_STOPS \
+            or (mod == "?" and a[0] in PATTERN_OPS)
+        if st == "undefined" and not documented_stop:
             # the port stops where Lua returns: accepted only as a documented limit, i.e. when the model of the port
             # predicts the stop (or, for patterns beyond the model voice's size limit, when the model has no voice)
-            st, why = "FAIL", "the port stops where Lua is defined and the model of the port does not predict the stop"
+            st, why = "FAIL", "the port stops where Lua is defined, and not for a documented limit"
         stats[st] += 1
         if st == "undefined":
-            k = "%s:%s" % (a[0], "model-trap" if mod == "!trap" else "no-model-voice")
+            k = "%s:%s" % (a[0], mod[1:] if mod.startswith("!trap") else "no-model-voice")
             undefined_by[k] = undefined_by.get(k, 0) + 1
         if nel.startswith("!"):
             err_kinds[nel] = err_kinds.get(nel, 0) + 1
@@ -736,7 +744,7 @@ def correspond(ctx):
         if i >= len(asan_lines) and anl[i] == "!exit77":
             handle(line, all_[i], anl[i], aml[i], tag="asan: ")
     with open(os.path.join(ctx.work, "failures.txt"), "w") as f:
-        f.write("\n".join(failing) + "\n")
+        f.write("\n".join(failing + ["SPEC " + x for x in spec_fail]) + "\n")
     return {
         "evaluations": len(cases) + len(asan_all),
         "distinct_nontrivial": len(nontrivial),
